@@ -27,7 +27,7 @@ CONFIGS = [("default-lru-512", {}), ("lru-1", {"query_cache_decorator": lru_cach
 async def explore(tier, seed):
     rng = random.Random(seed * 7 + 16)
     stats = {"evaluations": 0, "histories": 0, "nontrivial": set(), "problems": [], "samples": [], "kinds": {}}
-    nschemas, nhist = (fw.scale(6), 6) if tier == "quick" else (fw.scale(40), 30)
+    nschemas, nhist = (fw.scale(6), 8) if tier == "quick" else (fw.scale(40), 30)
     t0 = time.time()
     for si in range(nschemas):
         if time.time() - t0 > (100 if tier == "quick" else 1500): break
@@ -104,7 +104,14 @@ async def explore(tier, seed):
         for q_ in ("{ a: __schema { queryType { name } } }", '{ __typename b: __type(name: "T") { name } }', '{ c: __type(name: "Query") { name } d: __schema { queryType { name } } }'):
             pool.append(("introspection", q_, None, None))
         for hi in range(nhist):
-            hist = [rng.choice(pool) for _ in range(rng.randint(6, 25))]
+            # generated valid requests (several operations / variables per document) make up most of a history; the special
+            # entries of the pool are sprinkled in
+            core = [x for x in pool if x[0] in ("valid", "lookalike", "bytes")]
+            refused_ = [x for x in pool if x[0] in ("cyclic", "invalid", "invalid-multinode", "syntax", "unknown-op")]
+            special_ = [x for x in pool if x[0] in ("frag-retarget", "root-frag-redefined", "ctx", "introspection", "bytes-not-utf8")]
+            style = hi % 4      # 0: mostly valid requests (repeated documents, cache hits); 1: anything; 2: runs of REFUSED documents; 3: the look-alike pairs
+            src_, p_ = {0: (core, 0.8), 1: (pool, 0.0), 2: (refused_, 0.75), 3: (special_, 0.75)}[style]
+            hist = [rng.choice(src_) if (src_ and rng.random() < p_) else rng.choice(pool) for _ in range(rng.randint(6, 25))]
             # repetition on purpose
             hist += [hist[rng.randrange(len(hist))] for _ in range(4)]
             # reference: every distinct request of the history on ITS OWN fresh uncached engine (no history at all), once in a
